@@ -353,9 +353,18 @@ def _noop(it, *a, **k):
 FS_EXISTS = z3.Function('fs_exists', StrS, z3.BoolSort())
 
 
+def fs_note_created(it, path):
+    """ghost file-system state of a path: something now exists at `path` (a file being written, a directory made)"""
+    it.path.info.setdefault('fs_created', []).append(term(path, StrS))
+
+
 def _fs_exists(it, path):
-    """os.path.exists: a read of the file-system state, recorded in the trace"""
+    """os.path.exists: a read of the file-system state, recorded in the trace.  The state is the initial one (an
+    uninterpreted predicate) plus whatever this very execution created (ghost list filled by contracts' stubs)."""
     r = FS_EXISTS(term(path, StrS))
+    made = it.path.info.get('fs_created') or []
+    if made:
+        r = z3.Or(r, *[term(path, StrS) == q for q in made])
     it.emit(Ev('Call', target='os.path.exists', method='__call__', args=(path,), kwargs={}, result=r, objs=(path,)))
     return wrap(r)
 
@@ -497,6 +506,20 @@ def external_module(it, dotted):
     elif dotted == 'datapackage':
         a['Package'] = T('Package')
         a['Resource'] = T('Resource')
+
+        def _mk_ext(kind):
+            def ctor(it_, *args, **kw):
+                # constructing a datapackage object: an opaque object of that kind that remembers what it was built from
+                o = lib.Opaque(kind, 'new_' + kind)
+                o.attrs['__ctor_args__'] = (args, kw)
+                if 'descriptor' in kw:
+                    o.attrs['descriptor'] = kw['descriptor']
+                elif args:
+                    o.attrs['descriptor'] = args[0]
+                return o
+            return ctor
+        a['Package'].ctor = _mk_ext('Package')
+        a['Resource'].ctor = _mk_ext('Resource')
     elif dotted == 'tableschema':
         a['Schema'] = T('Schema')
     elif dotted == 'typing':
